@@ -245,6 +245,16 @@ def plan(tier, seed, with_dup=False):
         for p in progs:
             nh = G.count_hooks_upper(G.flatten(p))
             res.append((with_o2(p), [G.cfg(), G.cfg(capture=(True, False, True), stop=True)], [[0, 0]] + [[k, 0] for k in range(1, nh + 1)]))
+        # ... and interrupting CLEANUP functions: registered by steps on every layer, one raising (= interrupting) each,
+        # with earlier and later cleanups in the same layer around it
+        n = 0
+        for layer in ("", "scenario", "rule", "feature", "testrun"):
+            for in_rule in (False, True):
+                n += 3
+                sc1 = G.scenario([G.step("pass", cl=[n, layer, False]), G.step("pass", cl=[n + 1, layer, True]), G.step("pass", cl=[n + 2, layer, False])], ["t1"])
+                items = [G.rule([sc1, G.scenario(["pass"])])] if in_rule else [sc1, G.scenario(["pass"])]
+                prog = {"features": [G.feature(items), G.feature([G.scenario(["pass"])])], "family": "kbdhooks", "kbdhooks": True, "hookcl": n % 2 == 0}
+                res.append((with_o2(prog), [G.cfg(), G.cfg(retry=True)], [[0, 0], [3, 0]]))
         return res
 
     def with_typed(p, prob):
@@ -442,7 +452,7 @@ def shared(chk, part="core"):
     """Run (or load) the shared stage for this tree / tier / seed.  Returns a dict:
        n_runs, tlc: [{module,cfg,distinct,generated,wall,coverage}], verdicts: {clause: [ {key, ...} ]},
        divergences, samples, design_violations"""
-    key = tree_key({"tier": chk.tier, "seed": chk.seed, "part": part, "v": 42})
+    key = tree_key({"tier": chk.tier, "seed": chk.seed, "part": part, "v": 43})
     os.makedirs(CACHE, exist_ok=True)
     # one entry per (part, tier, repository location): runs against a mutated copy must not evict /repo's entry
     prefix = "%s-%s-%s-" % (part, chk.tier, hashlib.sha256(REPO.encode()).hexdigest()[:8])
